@@ -375,12 +375,20 @@ func (p *Parser) parseAmount() *ast.Amount {
 		isCommodity := p.current.Type == TokenCommodity ||
 			(p.current.Type == TokenText && isValidCommodityText(p.current.Value))
 		if isCommodity {
+			end := p.current.End
+			if p.current.Type == TokenText {
+				// a text token runs on over the blanks that follow it; the commodity is its (trimmed) value
+				if col := p.current.Pos.Column + utf16Units(p.current.Value); col < end.Column {
+					end.Column = col
+					end.Offset = p.current.Pos.Offset + len(p.current.Value)
+				}
+			}
 			amount.Commodity = ast.Commodity{
 				Symbol:   p.current.Value,
 				Position: ast.CommodityRight,
 				Range: ast.Range{
 					Start: toASTPosition(p.current.Pos),
-					End:   toASTPosition(p.current.End),
+					End:   toASTPosition(end),
 				},
 			}
 			p.advance()
